@@ -104,3 +104,31 @@ Theorem C13_lane16_fwht_differs_refuted : exists coeffs,
   ftransform_wht coeffs = Ok [16384; 0; 0; 0; 0; 0; 0; 0; 0; 0; 0; 0; 0; 0; 0; 0].
 Proof. exact lane16_fwht_differs_refuted. Qed.
 Print Assumptions C13_lane16_fwht_differs_refuted.
+
+(** TrueMotion predictor, green transforms, SSE, simple loop filter: byte
+    inputs cannot wrap the lanes — equal on all inputs. *)
+Theorem C13_lane16_tm_eq : forall top left tl, byte top -> byte left -> byte tl ->
+  l_tm_sample top left tl = tm_sample top left tl.
+Proof. exact lane16_tm_eq. Qed.
+Print Assumptions C13_lane16_tm_eq.
+
+Theorem C13_lane16_add_green_eq : forall a r g b, byte a -> byte r -> byte g -> byte b ->
+  add_green_lanes a r g b = add_green_go (argb_of a r g b).
+Proof. exact lane16_add_green_eq. Qed.
+Print Assumptions C13_lane16_add_green_eq.
+
+Theorem C13_lane16_sub_green_eq : forall a r g b, byte a -> byte r -> byte g -> byte b ->
+  sub_green_lanes a r g b = sub_green_go (argb_of a r g b).
+Proof. exact lane16_sub_green_eq. Qed.
+Print Assumptions C13_lane16_sub_green_eq.
+
+Theorem C13_lane16_sse_eq : forall a b, Forall byte a -> Forall byte b -> (List.length a <= 1024)%nat ->
+  l_sse_list a b = sse_list a b.
+Proof. exact lane16_sse_eq. Qed.
+Print Assumptions C13_lane16_sse_eq.
+
+Theorem C13_lane16_simple_filter_eq : forall p1 p0 q0 q1 thresh,
+  byte p1 -> byte p0 -> byte q0 -> byte q1 -> 0 <= thresh <= 32767 ->
+  simple_filter_lane p1 p0 q0 q1 thresh = simple_filter_go p1 p0 q0 q1 thresh.
+Proof. exact lane16_simple_filter_eq. Qed.
+Print Assumptions C13_lane16_simple_filter_eq.
